@@ -350,8 +350,11 @@ def small_cases(tier):
                     continue
                 # one case per first operation (prefix-closed sets of histories), so the work spreads over the workers
                 yield {"schema": sch, "variant": variant, "nrows": nrows, "depth": 0, "tier": tier, "first": None}
+                # thorough: depth 3 for the schemas of up to two columns, depth 2 for the wider ones (the operation
+                # alphabet has about 55 entries; 55^3 histories per schema and row count)
+                dd = d if (tier == "quick" or len(sch) <= 2) else 2
                 for i in range(len(enabled(Model(sch, nrows), tier))):
-                    yield {"schema": sch, "variant": variant, "nrows": nrows, "depth": d, "tier": tier, "first": i}
+                    yield {"schema": sch, "variant": variant, "nrows": nrows, "depth": dd, "tier": tier, "first": i}
 
 
 def run_bigframe(case):
